@@ -158,6 +158,70 @@ Check C03_lazy_entries_prefix :
   exists tail, fst (inner_entries_loop f2 (bs ++ more)) = fst (inner_entries_lazy sf f1 bs) ++ tail.
 Print Assumptions C03_lazy_entries_prefix.
 
+(* 5. cutting a stored solid entry that decodes (every cipher and mode; e' = e with its data cut after m bytes, framed
+   in any way): what the lazy reader — with the code's reads, i.e. 16-byte buffers in the model — yields from e' is a
+   PREFIX of the entries of e.  (Block function that keeps the block length; instance: AES-256 / Camellia-256.) *)
+Theorem C03_lazy_cut_yields_prefix :
+  forall (E D : encryption -> bytes -> bytes -> bytes) (decompress : compression -> bytes -> res bytes)
+         (verify : bytes -> bytes -> res bytes),
+  (forall a k c, len16 c -> len16 (D a k c)) ->
+  forall e e' pw rb m k ents fin es f,
+  s_comp (so_hdr e) = CNo -> so_hdr e' = so_hdr e -> so_phsf e' = so_phsf e ->
+  concat (so_data e') = firstn m (concat (so_data e)) ->
+  drains (so_data e) rb -> len (concat (so_data e')) < N.of_nat k ->
+  decode_solid E D decompress verify e pw rb = Ok (ents, fin) ->
+  decode_solid_lazy E D decompress verify e' pw (repeat 16 k) = Ok (es, f) ->
+  exists tail, ents = es ++ tail.
+Proof. exact lazy_cut_yields_prefix. Qed.
+Check C03_lazy_cut_yields_prefix :
+  forall (E D : encryption -> bytes -> bytes -> bytes) (decompress : compression -> bytes -> res bytes)
+         (verify : bytes -> bytes -> res bytes),
+  (forall a k c, len16 c -> len16 (D a k c)) ->
+  forall e e' pw rb m k ents fin es f,
+  s_comp (so_hdr e) = CNo -> so_hdr e' = so_hdr e -> so_phsf e' = so_phsf e ->
+  concat (so_data e') = firstn m (concat (so_data e)) ->
+  drains (so_data e) rb -> len (concat (so_data e')) < N.of_nat k ->
+  decode_solid E D decompress verify e pw rb = Ok (ents, fin) ->
+  decode_solid_lazy E D decompress verify e' pw (repeat 16 k) = Ok (es, f) ->
+  exists tail, ents = es ++ tail.
+Print Assumptions C03_lazy_cut_yields_prefix.
+
+Theorem C03_lazy_cut_yields_prefix_real :
+  forall (decompress : compression -> bytes -> res bytes) (verify : bytes -> bytes -> res bytes)
+         e e' pw rb m k ents fin es f,
+  s_comp (so_hdr e) = CNo -> so_hdr e' = so_hdr e -> so_phsf e' = so_phsf e ->
+  concat (so_data e') = firstn m (concat (so_data e)) ->
+  drains (so_data e) rb -> len (concat (so_data e')) < N.of_nat k ->
+  decode_solid real_E_of real_D_of decompress verify e pw rb = Ok (ents, fin) ->
+  decode_solid_lazy real_E_of real_D_of decompress verify e' pw (repeat 16 k) = Ok (es, f) ->
+  exists tail, ents = es ++ tail.
+Proof. exact lazy_cut_yields_prefix_real. Qed.
+Check C03_lazy_cut_yields_prefix_real :
+  forall (decompress : compression -> bytes -> res bytes) (verify : bytes -> bytes -> res bytes)
+         e e' pw rb m k ents fin es f,
+  s_comp (so_hdr e) = CNo -> so_hdr e' = so_hdr e -> so_phsf e' = so_phsf e ->
+  concat (so_data e') = firstn m (concat (so_data e)) ->
+  drains (so_data e) rb -> len (concat (so_data e')) < N.of_nat k ->
+  decode_solid real_E_of real_D_of decompress verify e pw rb = Ok (ents, fin) ->
+  decode_solid_lazy real_E_of real_D_of decompress verify e' pw (repeat 16 k) = Ok (es, f) ->
+  exists tail, ents = es ++ tail.
+Print Assumptions C03_lazy_cut_yields_prefix_real.
+
+Theorem C03_lazy_cut_prefix_premises_satisfiable :
+  s_comp (so_hdr lx_solid) = CNo /\ so_hdr (lx_cut 128) = so_hdr lx_solid /\ so_phsf (lx_cut 128) = so_phsf lx_solid /\
+  concat (so_data (lx_cut 128)) = firstn 128 (concat (so_data lx_solid)) /\
+  drains (so_data lx_solid) (repeat 16 200) /\ len (concat (so_data (lx_cut 128))) < N.of_nat 200 /\
+  lx_eager lx_solid (repeat 16 200) = Ok ([lit "a"; lit "b"], FinOk) /\
+  lx_lazy (lx_cut 128) (repeat 16 200) = Ok ([lit "a"], FinErr InvalidData).
+Proof. exact lx_cut_prefix_premises. Qed.
+Check C03_lazy_cut_prefix_premises_satisfiable :
+  s_comp (so_hdr lx_solid) = CNo /\ so_hdr (lx_cut 128) = so_hdr lx_solid /\ so_phsf (lx_cut 128) = so_phsf lx_solid /\
+  concat (so_data (lx_cut 128)) = firstn 128 (concat (so_data lx_solid)) /\
+  drains (so_data lx_solid) (repeat 16 200) /\ len (concat (so_data (lx_cut 128))) < N.of_nat 200 /\
+  lx_eager lx_solid (repeat 16 200) = Ok ([lit "a"; lit "b"], FinOk) /\
+  lx_lazy (lx_cut 128) (repeat 16 200) = Ok ([lit "a"], FinErr InvalidData).
+Print Assumptions C03_lazy_cut_prefix_premises_satisfiable.
+
 (* the premises are satisfiable, and the theorems bite: a two-entry stored CBC solid entry (toy block cipher), whole,
    cut between its entries, cut inside the second one, and re-cut into other SDAT chunks *)
 Theorem C03_lazy_examples :
